@@ -284,3 +284,67 @@ macro_rules! c04_nopanic {
         });
     };
 }
+
+/// operators `*`, `/`, `%` with one CONCRETE operand on wide types (64..192 bits): panic exactly when the exact result is unrepresentable
+/// (debug), wrapped result without panic (release); the exactness predicate is the harness-side limb product, not bnum's flag.
+#[macro_export]
+macro_rules! c04_cmul_ops {
+    (@pred $ad:ident, $bd:ident, $D:ty, $N:expr, $L:expr, $L2:expr, $sel:ident) => {
+        match $sel {
+            0 => $crate::c02::umul_overflows::<$D, $N, $L, $L2>(&$ad, &$bd),
+            1 => $crate::c02::smul_overflows::<$D, $N, { $N + 1 }, $L, $L2>(&$ad, &$bd),
+            // division / remainder by a non-zero constant: only signed MIN / -1 and MIN % -1 are unrepresentable
+            2 | 3 => false,
+            _ => is_min_s(&$ad) && is_all_ones(&$bd),
+        }
+    };
+    (@call $ua:ident, $ub:ident, $a:ident, $b:ident, $sel:ident) => {
+        match $sel { 0 => ($ua * $ub).dg(), 1 => ($a * $b).dg(), 2 => ($ua / $ub).dg(), 3 => ($ua % $ub).dg(), 4 => ($a / $b).dg(), _ => ($a % $b).dg() }
+    };
+    (@wrap $ua:ident, $ub:ident, $a:ident, $b:ident, $sel:ident) => {
+        match $sel { 0 => $ua.wrapping_mul($ub).dg(), 1 => $a.wrapping_mul($b).dg(), 2 => $ua.wrapping_div($ub).dg(), 3 => $ua.wrapping_rem($ub).dg(), 4 => $a.wrapping_div($b).dg(), _ => $a.wrapping_rem($b).dg() }
+    };
+    ($name:ident, $unw:expr, $U:ty, $I:ty, $D:ty, $N:expr, $L:expr, $L2:expr, [$($bv:expr),*], panic) => {
+        $crate::panic_harness!($name, $unw, {
+            use $crate::util::*;
+            let (ua, ad) = <$U as BN<$D, $N>>::any();
+            let bd: [$D; $N] = [$($bv),*];
+            let ub = <$U as BN<$D, $N>>::mk(bd);
+            let (a, b) = (<$I>::from_bits(ua), <$I>::from_bits(ub));
+            let sel: u8 = $crate::nd::nd();
+            $crate::nd::assume(sel < 6);
+            let f: bool = $crate::c04_cmul_ops!(@pred ad, bd, $D, $N, $L, $L2, sel);
+            $crate::nd::assume(f);
+            $crate::reach!(sel <= 1, "multiplication overflow");
+            let _r: [$D; $N] = $crate::c04_cmul_ops!(@call ua, ub, a, b, sel);
+            $crate::noreturn!("operator returned although the exact result is unrepresentable");
+        });
+    };
+    ($name:ident, $unw:expr, $U:ty, $I:ty, $D:ty, $N:expr, $L:expr, $L2:expr, [$($bv:expr),*], $mode:ident) => {
+        $crate::harness!($name, $unw, {
+            use $crate::util::*;
+            let (ua, ad) = <$U as BN<$D, $N>>::any();
+            let bd: [$D; $N] = [$($bv),*];
+            let ub = <$U as BN<$D, $N>>::mk(bd);
+            let (a, b) = (<$I>::from_bits(ua), <$I>::from_bits(ub));
+            let sel: u8 = $crate::nd::nd();
+            $crate::nd::assume(sel < 6);
+            let f: bool = $crate::c04_cmul_ops!(@pred ad, bd, $D, $N, $L, $L2, sel);
+            let rel = stringify!($mode) == "rel";
+            if !rel { $crate::nd::assume(!f); }
+            // MIN / -1 and MIN % -1 panic in both build modes (checked under c04_div_log_panic): excluded here
+            if sel >= 4 { $crate::nd::assume(!f); }
+            let r: [$D; $N] = $crate::c04_cmul_ops!(@call ua, ub, a, b, sel);
+            let w: [$D; $N] = $crate::c04_cmul_ops!(@wrap ua, ub, a, b, sel);
+            assert!(deq(&r, &w), "operator result = wrapped exact result (no panic)");
+            match sel {
+                0 => assert!(ua.checked_mul(ub).is_some() == !f, "checked_mul agrees with the exact predicate"),
+                1 => assert!(a.checked_mul(b).is_some() == !f, "signed checked_mul agrees with the exact predicate"),
+                _ => {}
+            }
+            $crate::reach!(sel == 1 && dneg(&ad), "signed product, negative operand");
+            $crate::reach!(sel == 4, "signed division");
+            $crate::reach!(!rel || f, "release mode: overflowing product wraps");
+        });
+    };
+}
